@@ -133,13 +133,14 @@ def classify(e, root):
     return True, "user"
 
 
-def strace_run(sb, args, inject=None, env=None, timeout=60, stdin=None, keep_trace=True):
+def strace_run(sb, args, inject=None, env=None, timeout=60, stdin=None, keep_trace=True, follow=True):
     """Run the CLI under strace in sandbox sb. inject: string for -e inject=..., or None.
     Returns (rc, stdout, stderr, trace_text)."""
     tf = sb.dir / "trace.txt"
     if tf.exists():
         tf.unlink()
-    cmd = ["strace", "-f", "-y", "-s", "16", "-o", str(tf), "-e", "trace=" + TRACE_SET]
+    # follow=False: only the process itself is traced (and gets the injected signal), not its threads and child processes
+    cmd = ["strace"] + (["-f"] if follow else []) + ["-y", "-s", "16", "-o", str(tf), "-e", "trace=" + TRACE_SET]
     if inject:
         for one in ([inject] if isinstance(inject, str) else inject):
             cmd += ["-e", "inject=" + one]
@@ -160,6 +161,9 @@ def strace_run(sb, args, inject=None, env=None, timeout=60, stdin=None, keep_tra
     except subprocess.TimeoutExpired as ex:
         rc, out, err = 124, ex.stdout or b"", (ex.stderr or b"") + b"\nTIMEOUT"
     trace = tf.read_text(errors="replace") if tf.exists() else ""
+    if not follow:
+        # without -f strace does not prefix lines with the pid: give them one, the parsers expect it
+        trace = "".join(("1 " + ln if not re.match(r"^\d+\s", ln) else ln) for ln in trace.splitlines(True))
     return rc, out, err, trace
 
 
